@@ -62,7 +62,7 @@ func (o Option) Value() []byte {
 }
 
 func (o Option) Bytes() []byte {
-	b := make([]byte, o.length+4)
+	b := make([]byte, int(o.length)+4)
 	binary.BigEndian.PutUint16(b[:2], o.tag)
 	binary.BigEndian.PutUint16(b[2:4], o.length)
 	copy(b[4:], o.value)
@@ -121,7 +121,7 @@ func (o Options) Serialize() []byte {
 }
 
 func (o Options) TP_udhi() uint8 {
-	if val, exist := o[TAG_TP_udhi]; exist {
+	if val, exist := o[TAG_TP_udhi]; exist && len(val.value) > 0 {
 		return val.value[0]
 	}
 	return 0
